@@ -36,6 +36,11 @@ CHECKS = {
             'reference template renderer + import-time class-attribute snapshot',
             'Every bounded history is executed; list membership, truth value, error recording, rendered message and '
             'class-attribute restoration are checked after every operation.', '2/C20'),
+    'C15': ('explicit-state enumeration of all run/call/evaluate/clear_output/set_input/queue_input/clear_input histories up '
+            'to depth 3/4 over 22 operations on one real Sandbox; oracle: reference model (string accumulator, per-execution '
+            'texts from plain CPython execution, FIFO) compared after every operation, echo/default calibrated',
+            'Every bounded history is executed and raw output, line list, input queue and per-execution records are '
+            'compared with the reference after each step.', '2/C15'),
 }
 
 PENDING = ['C02', 'C03', 'C04', 'C05', 'C06', 'C07', 'C08', 'C09', 'C10', 'C11', 'C12', 'C13', 'C14', 'C15',
